@@ -6,14 +6,15 @@ Open Scope N_scope.
 
 (* one step of a server scenario (layer T) *)
 Inductive sstep :=
-| SConn (peer : N) (render : list N) (targets : list (list N))  (* one connection from 127.x.y.z, keep-alive requests *)
-| SBurst (n : N) (peer : N) (render : list N) (target : list N) (* n concurrent connections, one GET each *)
-| SFault (kind : N) (peer : N)                                  (* 0 garbage bytes, 1 half-open, 2 reset *)
+| SConn (peer : ip) (render : list N) (targets : list (list N))  (* one connection whose peer address, as the listener
+                                                                    sees it, is [peer]; keep-alive requests *)
+| SBurst (n : N) (peer : ip) (render : list N) (target : list N) (* n concurrent connections, one GET each *)
+| SFault (kind : N) (peer : ip)                                  (* 0 garbage bytes, 1 half-open, 2 reset *)
 | SInc.                                                         (* a metric is updated *)
 
 Inductive case :=
 | CEntry (entry : list N) (intent : option entry4) (peers : list ip)          (* layer D *)
-| CServe (entries : list (list N * entry4)) (steps : list sstep).             (* layer T *)
+| CServe (entries : list (list N * sentry)) (steps : list sstep).             (* layer T *)
 
 Inductive sout := OC (rs : list resp) | OB (rs : list resp) | OFault | OInc.
 Inductive OUT :=
@@ -80,12 +81,12 @@ Definition run_sstep (s : state) (st : sstep) : state * sout :=
   match st with
   | SConn peer render targets =>
       let s0 := fst (step s (Update render)) in
-      let '(s1, rs) := serve_conn s0 (V4 peer) targets EvClose in (s1, OC rs)
+      let '(s1, rs) := serve_conn s0 peer targets EvClose in (s1, OC rs)
   | SBurst n peer render target =>
       let s0 := fst (step s (Update render)) in
-      let '(s1, rs) := burst s0 (N.to_nat n) (V4 peer) target in (s1, OB rs)
+      let '(s1, rs) := burst s0 (N.to_nat n) peer target in (s1, OB rs)
   | SFault kind peer =>
-      let '(s1, _) := serve_conn s (V4 peer) [] (fault_event kind) in (s1, OFault)
+      let '(s1, _) := serve_conn s peer [] (fault_event kind) in (s1, OFault)
   | SInc => (s, OInc)
   end.
 
@@ -112,10 +113,18 @@ Definition run_case : case -> OUT := run_case_gen true.
 (* ---- the property in executable form, evaluated on an observed output *)
 Definition wf_sstep (st : sstep) : bool :=
   match st with
-  | SConn peer _ _ => peer <? 2 ^ 32
-  | SBurst _ peer _ _ => peer <? 2 ^ 32
-  | SFault _ peer => peer <? 2 ^ 32
+  | SConn peer _ _ => wf_ip peer
+  | SBurst _ peer _ _ => wf_ip peer
+  | SFault _ peer => wf_ip peer
   | SInc => true
+  end.
+
+(* the stated meaning of a scenario entry is accepted: printed form (E4) / what the parser model reads (EP) *)
+Definition entry_ok (x : list N * sentry) : bool :=
+  let '(txt, e) := x in
+  match e with
+  | E4 i => wf_entry4 i && dec2b bytes_eq_dec txt (print_entry4 i)
+  | EP n => dec2b (opt_eq_dec net_eq_dec) (parse_entry txt) (Some n)
   end.
 
 Definition wf_case (c : case) : bool :=
@@ -124,14 +133,14 @@ Definition wf_case (c : case) : bool :=
       forallb wf_ip peers &&
       match intent with Some i => wf_entry4 i && dec2b bytes_eq_dec e (print_entry4 i) | None => true end
   | CServe entries steps =>
-      forallb (fun '(txt, i) => wf_entry4 i && dec2b bytes_eq_dec txt (print_entry4 i)) entries &&
+      forallb entry_ok entries &&
       forallb wf_sstep steps
   end.
 
 Definition spec_sout (al : option (list net)) (st : sstep) : sout :=
   match st with
-  | SConn peer render targets => OC (map (fun t => spec_respond al (V4 peer) t render) targets)
-  | SBurst n peer render target => OB (repeat (spec_respond al (V4 peer) target render) (N.to_nat n))
+  | SConn peer render targets => OC (map (fun t => spec_respond al peer t render) targets)
+  | SBurst n peer render target => OB (repeat (spec_respond al peer target render) (N.to_nat n))
   | SFault _ _ => OFault
   | SInc => OInc
   end.
@@ -155,7 +164,7 @@ Definition spec_ok (c : case) (o : OUT) : bool :=
       | None => true
       end
   | CServe entries steps, OServe l =>
-      dec2b (list_eq_dec sout_eq_dec) l (map (spec_sout (spec_allowlist (map snd entries))) steps)
+      dec2b (list_eq_dec sout_eq_dec) l (map (spec_sout (spec_allowlist_s (map snd entries))) steps)
   | _, _ => false
   end.
 
